@@ -21,7 +21,7 @@ def run(prog: Program, rep: Report):
     rep.rule("C19.R1", "BatcherIter iteration idiom (C01.R8): every element appended once, full batch yielded then replaced by a "
              "fresh container, non-empty remainder yielded, tuple input advanced in lock-step by one zip", floor=2)
     bi = prog.cls("BatcherIter", GENERIC_MOD)
-    batcher_idiom(prog, rep, "C19.R1", bi)
+    rep.attempt(lambda: batcher_idiom(prog, rep, "C19.R1", bi))
     f = prog.method_view(bi, "__iter__")
     top = [s for s in f.node.body if isinstance(s, ast.If)]
     if top:
@@ -94,11 +94,20 @@ def run(prog: Program, rep: Report):
         rep.check("C19.R1", init, "size-validated", ok, "batch_size <= 0 is rejected (the idiom relies on sizes >= 1)",
                   "batch_size is not validated to be positive: with size 0 no batch is ever closed",
                   scenario="BatcherIter(data, 0) yields one unbounded batch instead of raising ValueError")
-    r2_numerals(prog, rep)
-    r3_arg_sort(prog, rep)
-    r4_window_scan(prog, rep)
-    r5_multiset(prog, rep)
-    r6_batcher(prog, rep)
+    rep.attempt(lambda: r2_numerals(prog, rep))
+    rep.attempt(lambda: r3_arg_sort(prog, rep))
+    rep.attempt(lambda: r4_window_scan(prog, rep))
+    rep.attempt(lambda: r5_multiset(prog, rep))
+    rep.attempt(lambda: r6_batcher(prog, rep))
+    from .mixins import rule_fresh_iterator
+    rep.attempt(lambda: rule_fresh_iterator(prog, rep, "C19.R7", [prog.cls("Batcher", GENERIC_MOD), bi]))
+    from .purity import rule_history_free
+    pure = [prog.func(n, GENERIC_MOD) for n in ("int_2_roman", "roman_2_int", "arg_sort", "sub_seq", "search_sub_seq",
+                                                "compare_pos_in_iterables")]
+    pure += [prog.method_raw(prog.cls("Batcher", GENERIC_MOD), m) for m in ("__len__", "__getitem__")] + [prog.method_raw(bi, "__iter__")]
+    rep.attempt(lambda: rule_history_free(prog, rep, "C19.R8", pure))
+    from .oneshot import oneshot_field_rule
+    rep.attempt(lambda: oneshot_field_rule(prog, rep, "C19.R9", bi))
 
 
 def r2_numerals(prog: Program, rep: Report):
